@@ -190,4 +190,51 @@ def r3_serde(ctx):
                 ctx.ob("R3", "ContentSerializer::write_indent[%s]" % (fl != 0), wrote == (fl != 0) and (cleared or fl == 0), "indent is written iff the flag is set and the flag is cleared after use", config=cfg)
 
 
-RULES = [("R1", r1_writer), ("R2", r2_depth), ("R3", r3_serde)]
+def r4_classification(ctx):
+    """The serde serializer indents after a value only when the WriteResult it got back allows it.  A path that wrote
+    bare text into element content (through a simple-type serializer) must therefore report a class for which
+    allow_indent() is false; reporting Element or Nothing would let the next sibling's indent land inside the text."""
+    for cfg, F in ctx.facts.items():
+        if "serialize" not in F.features:
+            ctx.ob("R4", "not-compiled", True, "serializer only with the `serialize` feature", config=cfg)
+            continue
+        vs = F.variants("se::WriteResult")
+        allow = {"Element", "Nothing"}
+        n = 0
+        fns = 0
+        for b in F.bodies:
+            loc = b.loc(b.j["span"])
+            if not loc.startswith("src/se/") or is_derive(b) or "::tests::" in b.path or "{closure" in b.path:
+                continue
+            if not any(name_is(callee_of(t)[0] or "", "into_simple_type_serializer", "into_simple_type_serializer_impl") for _, t in b.calls()):
+                continue
+            fn = sym.short(strip_generics(b.path))
+            fns += 1
+            try:
+                paths = ctx.paths(b)
+            except Exception:
+                continue
+            for p in paths:
+                if ends(p) != "ret":
+                    continue
+                r = ret_of(p)
+                rv = describe_ret(r, 1)[0]
+                if rv[:1] != ("Ok",) or len(rv) < 2 or rv[1] not in vs:
+                    continue
+                texty = any(name_is(c[2], "into_simple_type_serializer", "into_simple_type_serializer_impl") for c in calls(p))
+                # text wrapped in its own tags on the same path (write_wrapped) is an element
+                def lit(a):
+                    a = strip_wrappers(a)
+                    if a[0] == "c" and a[1] == "char":
+                        return chr(char_value(a[2]))
+                    bl = bytes_literal(a)
+                    return bl.decode("utf-8", "replace") if bl is not None else ""
+                tagged = any(name_is(c[2], "write_char", "write_str") and len(c[3]) > 1 and "<" in lit(c[3][1]) for c in calls(p))
+                if not texty or tagged:
+                    continue
+                n += 1
+                ctx.ob("R4", "%s:text->%s" % (fn, rv[1]), rv[1] not in allow, "a path that writes bare text reports %s; allow_indent() must be false for it" % rv[1], loc=loc, config=cfg)
+        ctx.floor("R4", "text-writing Ok paths with a WriteResult", n, 3, config=cfg)
+
+
+RULES = [("R1", r1_writer), ("R2", r2_depth), ("R3", r3_serde), ("R4", r4_classification)]
